@@ -21,3 +21,129 @@ pub(crate) fn virtual_now() -> Option<StdInstant> {
         None
     }
 }
+
+// ----------------------------------------------------------------------------//
+// The handler, driven one event at a time.
+
+use crate::action::ScheduledTaskCheck;
+use crate::handler::DhtHandler;
+use crate::info_hash::InfoHash;
+use crate::message::Message;
+use crate::socket::Socket;
+use crate::SocketTrait;
+use std::collections::HashSet;
+use std::net::SocketAddr;
+use std::sync::{Arc, Mutex};
+use tokio::sync::mpsc;
+
+/// What a timer entry stands for (`ScheduledTaskCheck` with the transaction id as bytes).
+#[derive(Clone, Debug, PartialEq, Eq)]
+pub enum VTask {
+    TableRefresh,
+    LookupTimeout(Vec<u8>),
+    LookupEndGame(Vec<u8>),
+}
+
+impl From<ScheduledTaskCheck> for VTask {
+    fn from(t: ScheduledTaskCheck) -> Self {
+        match t {
+            ScheduledTaskCheck::TableRefresh => VTask::TableRefresh,
+            ScheduledTaskCheck::LookupTimeout(id) => VTask::LookupTimeout(id.as_ref().to_vec()),
+            ScheduledTaskCheck::LookupEndGame(id) => VTask::LookupEndGame(id.as_ref().to_vec()),
+        }
+    }
+}
+
+pub struct VHandler {
+    inner: DhtHandler,
+    // keeps the command channel open
+    _command_tx: mpsc::UnboundedSender<crate::action::OneshotTask>,
+}
+
+impl VHandler {
+    /// Must be called inside a tokio runtime (the bootstrap worker task is spawned, and stays idle
+    /// until `StartBootstrap`, which this wrapper never sends).
+    pub fn new<S: SocketTrait + Send + Sync + 'static>(
+        node_id: InfoHash,
+        socket: S,
+        read_only: bool,
+        announce_port: Option<u16>,
+    ) -> std::io::Result<Self> {
+        let (tx, rx) = mpsc::unbounded_channel();
+        let inner = DhtHandler::new(
+            node_id,
+            Socket::new(socket)?,
+            read_only,
+            HashSet::new(),
+            HashSet::new(),
+            announce_port,
+            rx,
+        );
+        Ok(Self {
+            inner,
+            _command_tx: tx,
+        })
+    }
+
+    pub fn table(&self) -> Arc<Mutex<RoutingTable>> {
+        self.inner.verif_table()
+    }
+
+    pub async fn handle_incoming(&mut self, message: Message, addr: SocketAddr) -> Result<(), String> {
+        self.inner.verif_handle_incoming(message, addr).await
+    }
+
+    pub async fn recv_and_handle(&mut self) -> Result<(Message, SocketAddr), String> {
+        self.inner.verif_recv_and_handle().await
+    }
+
+    pub async fn start_lookup(
+        &mut self,
+        info_hash: InfoHash,
+        announce: bool,
+    ) -> mpsc::UnboundedReceiver<SocketAddr> {
+        let (tx, rx) = mpsc::unbounded_channel();
+        self.inner.verif_start_lookup(info_hash, announce, tx).await;
+        rx
+    }
+
+    pub async fn fire_timer(&mut self) -> Option<VTask> {
+        self.inner.verif_fire_timer().await.map(VTask::from)
+    }
+
+    /// (deadline, id, task) of every pending timer entry, earliest first
+    pub fn timer_entries(&self) -> Vec<(std::time::Instant, u64, VTask)> {
+        self.inner
+            .verif_timer_entries()
+            .into_iter()
+            .map(|(deadline, id, task)| (deadline.into_std(), id, VTask::from(task)))
+            .collect()
+    }
+
+    pub fn lookup_action_ids(&self) -> Vec<u64> {
+        let mut ids: Vec<u64> = self
+            .inner
+            .verif_lookup_ids()
+            .into_iter()
+            .map(|id| id.verif_value())
+            .collect();
+        ids.sort();
+        ids
+    }
+
+    pub fn refresh_action_id(&self) -> u64 {
+        self.inner.verif_refresh_action_id().verif_value()
+    }
+
+    pub async fn refresh(&mut self) {
+        self.inner.verif_refresh().await
+    }
+
+    pub fn token_store(&self) -> TokenStore {
+        self.inner.verif_token_store()
+    }
+
+    pub fn store_mut(&mut self) -> &mut AnnounceStorage {
+        self.inner.verif_store_mut()
+    }
+}
